@@ -1163,67 +1163,88 @@ def iter_handler_classes(s):
 # python mirror of the escape analysis (development aid + failing-input search: gives the call path).
 # The verdicts of the check come from the Coq evaluation, never from this function.
 # ---------------------------------------------------------------------------------------------------
-def analyse(prog, x):
-    """x: exit_on_error of the outermost parser. Returns table[(fn, x)] -> {site: path}"""
+def analyse(prog, x=None):
+    """Faithful mirror of C03ExnFlow.esc / iterate (Jacobi rounds with join), with a call path per escaping site.
+    Returns (table, rounds): table[(fn, x)] = (esc: {site: path}, may_complete_normally, may_complete_abruptly)."""
     classes, mro = prog["classes"], prog["mro"]
     site_cls = [prog["cidx"][s["cls"]] for s in prog["sites"]]
     supers = [set(prog["cidx"][d] for d in mro[c]) for c in classes]
     table = {}
     for q in prog["functions"]:
-        table[(q, True)] = {}
-        table[(q, False)] = {}
+        table[(q, True)] = ({}, False, False)
+        table[(q, False)] = ({}, False, False)
+
+    def union(*ds):
+        out = {}
+        for d in ds:
+            for i, p in d.items():
+                out.setdefault(i, p)
+        return out
 
     def esc(s, xx, stack, here):
         k = s[0]
-        if k in ("skip", "abrupt"):
-            return {}
+        if k == "skip":
+            return ({}, True, False)
+        if k == "abrupt":
+            return ({}, False, True)
         if k == "raise":
-            return {s[1]: (here,)}
+            return ({s[1]: (here,)}, False, False)
         if k == "reraise":
-            return dict(stack[-1 - s[1]]) if s[1] < len(stack) else {}
+            return (dict(stack[-1 - s[1]]) if s[1] < len(stack) else {}, False, False)
         if k == "call":
-            return {i: (here,) + p for i, p in table[(s[1], xx)].items()}
-        if k in ("seq", "choice"):
-            out = {}
+            e, n, a = table[(s[1], xx)]
+            return ({i: (here,) + p for i, p in e.items()}, n or a, False)
+        if k == "seq":
+            e, n, a = {}, True, False
             for y in s[1]:
-                for i, p in esc(y, xx, stack, here).items():
-                    out.setdefault(i, p)
-            return out
+                e2, n2, a2 = esc(y, xx, stack, here)
+                e, n, a = union(e, e2), n2, a or a2
+                if not n:
+                    break
+            return (e, n, a)
+        if k == "choice":
+            rs = [esc(y, xx, stack, here) for y in s[1]]
+            return (union(*[r[0] for r in rs]), any(r[1] for r in rs), any(r[2] for r in rs))
         if k == "loop":
-            return esc(s[1], xx, stack, here)
+            e, n, a = esc(s[1], xx, stack, here)
+            return (e, True, a)
         if k == "withx":
             return esc(s[2], s[1], stack, here)
         if k == "ifx":
             return esc(s[1] if xx else s[2], xx, stack, here)
         if k == "try":
-            rem = esc(s[1], xx, stack, here)
-            out = {}
+            be, bn, ba = esc(s[1], xx, stack, here)
+            roe = esc(s[3], xx, stack, here) if bn else ({}, False, False)
+            rem = dict(be)
+            he, hn, ha = {}, False, False
             for cs, h in s[2]:
                 caught = {i: p for i, p in rem.items() if supers[site_cls[i]] & set(cs)}
                 if not caught:
                     continue
                 rem = {i: p for i, p in rem.items() if i not in caught}
-                for i, p in esc(h, xx, stack + [caught], here).items():
-                    out.setdefault(i, p)
-            for part in (rem, esc(s[3], xx, stack, here), esc(s[4], xx, stack, here)):
-                for i, p in part.items():
-                    out.setdefault(i, p)
-            return out
+                e2, n2, a2 = esc(h, xx, stack + [caught], here)
+                he, hn, ha = union(he, e2), hn or n2, ha or a2
+            fe, fn_, fa = esc(s[4], xx, stack, here)
+            oh_norm = roe[1] or hn
+            oh_abr = ba or roe[2] or ha
+            return (union(rem, he, roe[0], fe), fn_ and oh_norm, (fn_ and oh_abr) or fa)
         raise AssertionError(k)
 
     rounds = 0
-    changed = True
-    while changed:
-        changed = False
+    while True:
         rounds += 1
+        new = {}
+        changed = False
         for q in prog["functions"]:
             for xx in (False, True):
-                new = esc(prog["bodies"][q], xx, [], q)
-                old = table[(q, xx)]
-                if set(new) - set(old):
-                    for i, p in new.items():
-                        old.setdefault(i, p)
+                e, n, a = esc(prog["bodies"][q], xx, [], q)
+                oe, on, oa = table[(q, xx)]
+                if set(e) - set(oe) or (n and not on) or (a and not oa):
                     changed = True
+                new[(q, xx)] = (union(oe, e), on or n, oa or a)
+        table = new
+        if not changed:
+            break
         if rounds > 500:
             raise TieBroken("python mirror analysis does not converge")
     return table, rounds
@@ -1404,7 +1425,7 @@ if __name__ == "__main__":
                 q = "%s.%s" % (ENTRY_CLASS, m)
                 print("== %s exit_on_error=%s (%d rounds)" % (m, xx, rounds))
                 seen = set()
-                for i, p in sorted(table[(q, xx)].items()):
+                for i, p in sorted(table[(q, xx)][0].items()):
                     s = prog["sites"][i]
                     key = (s["cls"], s["fn"], s["kind"][:30])
                     if key in seen and "-v" not in sys.argv:
